@@ -87,3 +87,58 @@ def datum_of_model(model, sem):
         for p, interp in fr.predicates.items():
             for params, v in interp.items(): pred[(w, p, tuple(params))] = S.VAL[v.name]
     return Datum(sem, worlds, R, sorted(model.constants), atom, pred, opaque)
+
+def small_countermodel(sem, premises, conclusion, max_worlds=2, max_domain=2, budget=200_000):
+    """independent search for a countermodel among small models: worlds <= max_worlds with every relation in the logic's frame
+    class, a domain of the argument's constants padded to at least one and at most max_domain + constants, every assignment
+    of the logic's values to the atoms / unary and binary predications that occur.  -> Datum or None (None also when the
+    budget of candidate models is exhausted: not a proof of validity)."""
+    sents = list(premises) + [conclusion]
+    atoms, preds, consts = [], [], []
+    def walk(s):
+        k = _kind(s)
+        if k == 'Atomic':
+            if s not in atoms: atoms.append(s)
+        elif k == 'Predicated':
+            if s.predicate not in preds and not getattr(s.predicate, 'is_system', False): preds.append(s.predicate)
+            for p in s.params:
+                if type(p).__name__ == 'Constant' and p not in consts: consts.append(p)
+        elif k == 'Quantified': walk(s.sentence)
+        else:
+            for x in s.operands: walk(x)
+    for s in sents: walk(s)
+    if any(getattr(p, 'is_system', False) for s in sents for p in _preds(s)): return None      # identity / existence: not searched here
+    from pytableaux.lang import Constant
+    tried = 0
+    for nd in range(max(1, len(consts)), max(1, len(consts)) + max_domain):
+        domain = list(consts)
+        i = 0
+        while len(domain) < nd:
+            c = Constant(i % 4, 7 + i // 4); i += 1
+            if c not in domain: domain.append(c)
+        for nw in range(1, (max_worlds if sem.modal else 1) + 1):
+            worlds = list(range(nw))
+            pairs = [(a, b) for a in worlds for b in worlds]
+            rels = [set()] if not sem.modal else [set(r) for k in range(len(pairs) + 1) for r in __import__('itertools').combinations(pairs, k) if S.frame_ok(sem.frame, worlds, set(r))]
+            keys = [('a', w, a) for w in worlds for a in atoms]
+            for w in worlds:
+                for p in preds:
+                    for tup in product(domain, repeat=p.arity): keys.append(('p', w, p, tup))
+            if len(sem.values) ** len(keys) * len(rels) > budget: continue
+            for R in rels:
+                for vals in product(sem.values, repeat=len(keys)):
+                    tried += 1
+                    atom = {}; pred = {}
+                    for k, v in zip(keys, vals):
+                        if k[0] == 'a': atom[(k[1], k[2])] = v
+                        else: pred[(k[1], k[2], k[3])] = v
+                    d = Datum(sem, worlds, R, domain, atom, pred)
+                    if d.is_countermodel(premises, conclusion): return d
+    return None
+
+def _preds(s):
+    k = _kind(s)
+    if k == 'Predicated': return [s.predicate]
+    if k == 'Quantified': return _preds(s.sentence)
+    if k == 'Operated': return [p for x in s.operands for p in _preds(x)]
+    return []
